@@ -188,7 +188,8 @@ func (r *Result) Sample(s interface{}) {
 }
 func (r *Result) Add(f Finding) {
 	r.mu.Lock()
-	if len(r.Findings) < 200 {
+	// 200 per kind: a flood of model disagreements must not crowd out the property oracle's failing inputs
+	if r.Dist["findings."+f.Kind] < 200 {
 		r.Findings = append(r.Findings, f)
 	}
 	r.Dist["findings."+f.Kind]++
